@@ -52,6 +52,7 @@ def gen_case(rng, tier):
          'seed0': False}
     if rng.random() < 0.4:
         c['scale'] = rng.choice([2.0, 0.5, 1024.0, 3.0, 0.1, rng.uniform(0.01, 100)])
+    c['periods'] = rng.choice([252, 252, 52, 12, 365, 1638, 1])
     return c
 
 
@@ -157,7 +158,8 @@ class C17(Prop):
                 p *= 1 + v
             if not ok(p, total):
                 F.append('%s aggregates compound to %s, the daily series to %s' % (name, p, total))
-        years = n / 252.0
+        P = c.get('periods', 252)
+        years = n / float(P)
         want_cagr = float(cum[-1]) ** (1.0 / years) - 1.0
         if not ok(want_cagr, a['cagr'], 1e-8):
             F.append('CAGR %s, final cumulative return ^ (periods / observations) - 1 = %s' % (a['cagr'], want_cagr))
@@ -169,7 +171,7 @@ class C17(Prop):
             j.knife += 1          # (near-)constant returns: the ratio is dominated by rounding noise
             degenerate = True
         elif var > 0:
-            want = math.sqrt(252) * float(mean) / math.sqrt(float(var))
+            want = math.sqrt(P) * float(mean) / math.sqrt(float(var))
             if not ok(want, a['sharpe'], 1e-7):
                 F.append('Sharpe %s, sqrt(periods) x mean / population std = %s' % (a['sharpe'], want))
         neg = [x for x in rets if x < 0]
@@ -180,7 +182,7 @@ class C17(Prop):
                 j.knife += 1
                 degenerate = True
             elif vneg > 0:
-                want = math.sqrt(252) * float(mean) / math.sqrt(float(vneg))
+                want = math.sqrt(P) * float(mean) / math.sqrt(float(vneg))
                 if not ok(want, a['sortino'], 1e-7):
                     F.append('Sortino %s, sqrt(periods) x mean / population std of negative returns = %s' % (a['sortino'], want))
         # tearsheet and JSON export report the same numbers
@@ -191,6 +193,8 @@ class C17(Prop):
                            ('cagr', a['cagr'], js['cagr']), ('max drawdown vs performance', a['maxdd'], js['maxdd'])):
             if not ok(x, y, 1e-12):
                 F.append('tearsheet / JSON / performance disagree on %s: %s vs %s' % (name, x, y))
+        if not ok(js['std'] * math.sqrt(P), js['ann_vol'], 1e-9):
+            F.append('JSON annualised volatility %s, sqrt(periods) x std = %s' % (js['ann_vol'], js['std'] * math.sqrt(P)))
         for name in ('dd', 'returns', 'cum'):
             if len(t[name]) != len(js[name]) or any(not ok(x, y, 1e-12) for x, y in zip(t[name], js[name])):
                 F.append('tearsheet and JSON %s series differ' % name)
